@@ -979,6 +979,21 @@ class Engine:
         return None
 
     def ev_Attribute(self, e, st):
+        if isinstance(e.value, ast.Call) and isinstance(e.value.func, ast.Name) and \
+                e.value.func.id == 'super' and not e.value.args:
+            # super().m: the method of the base class of the class that defines the function
+            # under verification (only supported at the top level of that function)
+            parts = (self.cur_func or '').split('.')
+            sch = next((self.reg.schemas[p] for p in parts if p in self.reg.schemas), None)
+            me = self.lookup(st, 'self', None)
+            if sch is None or not sch.base or me is None:
+                raise EngineError('super() outside a method of a schema class (line %d)'
+                                  % e.lineno)
+            v = self.class_attr(st, sch.base, e.attr, me)
+            if v is None:
+                raise EngineError('super().%s not found (line %d)' % (e.attr, e.lineno))
+            yield st, v
+            return
         for s1, o in self.ev(e.value, st):
             if isinstance(o, Raise):
                 yield s1, o
@@ -1127,6 +1142,17 @@ class Engine:
                 yield from self.run_coro(s1, v, e.lineno)
             elif v.ty.kind == 'fn' and v.t[0] == 'corolib':
                 yield from v.t[1](self, s1, None, e.lineno)
+            elif v.ty.kind == 'opaque' and v.ty.args[0] == 'Task' and is_opt(v.ty) and \
+                    not s1.spec:
+                # awaiting an optional task (a field such as read_loop_task): None is not
+                # awaitable. (Library calls are modelled as returning the awaited value, so only
+                # task-typed values are treated as awaitables here.)
+                for s2, null in self.fork(s1, v.t == 0):
+                    if null:
+                        yield s2, Raise('TypeError', (), e.lineno)
+                    else:
+                        yield from self.lib.await_value(self, s2, V(Opaque('Task'), v.t),
+                                                        e.lineno)
             else:
                 yield s1, v
 
